@@ -204,7 +204,8 @@ Definition is_anc (G : graph) (a d : nat) : bool :=
     targets are not nodes, and every recorded matching is valid. *)
 Definition inputs_ok (c : case) : bool :=
   let G := case_graph c in
-  wf_graphb G && Nat.ltb (N.to_nat (c_start c)) (length G)
+  wf_graphb G && pc_okb G && (N.of_nat (length G) <=? U32MAX)%N
+  && Nat.ltb (N.to_nat (c_start c)) (length G)
   && forallb (fun nd =>
        Nat.ltb (fst nd) (length G) &&
        forallb (fun e => negb (Nat.eqb (fst e) (fst nd)) && is_anc G (fst e) (fst nd)
